@@ -522,6 +522,24 @@ def acc_classify(a):
     return None
 
 
+def is_dot_test(t, p):
+    """test that the line begins with '.': line.startswith('.'|'..'), line[0] == '.', line[:1] == '.'"""
+    if isinstance(t, ast.Call) and dotted(t.func) == p + '.startswith' and t.args and const(t.args[0]) in ('.', '..'):
+        return True
+    if isinstance(t, ast.Compare) and len(t.ops) == 1 and isinstance(t.ops[0], ast.Eq) and const(t.comparators[0]) in ('.', '..'):
+        l = t.left
+        if isinstance(l, ast.Subscript) and dotted(l.value) == p:
+            return True
+    return False
+
+
+def is_dot_unstuffing(g, sub, p):
+    for n in g.nodes_containing(sub):
+        if any(lab == 'T' for _, lab in g.guarded_by(n, lambda t: is_dot_test(t, p))):
+            return True
+    return False
+
+
 def r01_8(run):
     idx_d, idx_cmd, idx_cb, app, tup = queue_layout(run)
     for name in HANDLERS:
@@ -546,6 +564,7 @@ def r01_8(run):
         u = U(run, name)
         p = u.params[1] if len(u.params) > 1 else None
         k = 0
+        gg = cfg_of(u)
         for n in walk_unit(u):
             if isinstance(n, ast.Subscript) and dotted(n.value) == p and isinstance(n.slice, ast.Slice):
                 lo = const(n.slice.lower) if n.slice.lower is not None else None
@@ -553,6 +572,8 @@ def r01_8(run):
                 # int(line[:3]) - the code - is not payload
                 if lo is None and up is not None:
                     continue
+                if want is None and lo == 1 and up is None and is_dot_unstuffing(gg, n, p):
+                    continue    # control-spec 2.3: one leading '.' removed from a dot-stuffed data line
                 k += 1
                 ok = (want is not None and lo == want and up is None)
                 run.ob('R01.8', u, n, 'payload of a prefixed line is line[4:]', ok, slot='slice:%s' % name,
